@@ -1,27 +1,41 @@
-"""C19 child process: performs ONE write scenario inside a sandbox directory
-with a sys.addaudithook that logs file-system events and, at the k-th event,
-either kills the process (os._exit) or raises OSError.
+"""C19 child server: imports cogent3 ONCE, then performs every execution of ONE
+write scenario in a forked process of its own (fresh sandbox directory each):
+the trace run, a run killed before audited event k for every k, and a run in
+which audited event k raises an exception of each requested class.
 
-argv: JSON {"sandbox": dir, "scenario": {...}, "mode": "trace"|"kill"|"fault", "k": int}
-stdout: JSON {"events": [...], "outcome": "ok"|"raised:<Class>"}   (not printed when killed)
+A sys.addaudithook logs the file-system events (tempfile.mkdtemp, open,
+os.remove, os.rename, shutil.rmtree) that touch the sandbox; at the k-th event
+the forked process either dies (os._exit, no handler runs) or raises.
+
+argv: JSON {"scenario": {...}, "kills": "all"|"sample", "faults": "all"|"sample"|"none",
+            "classes": ["OSError", ...], "jobs": [[mode, k, exc], ...] (optional: exactly these instead)}
+stdout: one JSON line per execution
+  {"mode","k","exc","rc","events","outcome","dest": latin-1 text | null,"leftovers":[...]}
 """
 import json
 import os
+import shutil
 import sys
+import tempfile
+import time
+import zipfile
 
 cfg = json.loads(sys.argv[1])
-SANDBOX = os.path.realpath(cfg["sandbox"])
-MODE, K = cfg["mode"], cfg.get("k", -1)
 SC = cfg["scenario"]
+OLD = b"OLD"
 
-import cogent3  # noqa: E402  (import everything before the hook is armed)
+import cogent3  # noqa: E402,F401  (import everything before any fork)
 from cogent3 import make_aligned_seqs, make_table, make_tree, make_unaligned_seqs  # noqa: E402
+from cogent3.phylo.tree_collection import ScoredTreeCollection  # noqa: E402
 from cogent3.util.dict_array import DictArrayTemplate  # noqa: E402
 from cogent3.util.io import atomic_write  # noqa: E402
+import numpy  # noqa: E402
 
-EVENTS = []
-ARMED = [False]
-INTEREST = {"tempfile.mkdtemp", "open", "os.remove", "os.rename", "shutil.rmtree", "os.mkdir", "os.rmdir"}
+EXC = {"OSError": OSError, "ValueError": ValueError, "AttributeError": AttributeError,
+       "RuntimeError": RuntimeError, "KeyboardInterrupt": KeyboardInterrupt}
+
+STATE = {"armed": False, "sandbox": None, "mode": "trace", "k": -1, "exc": "OSError", "events": []}
+INTEREST = {"tempfile.mkdtemp", "open", "os.remove", "os.rename", "shutil.rmtree"}
 
 
 def _inside(p):
@@ -29,15 +43,14 @@ def _inside(p):
         p = os.path.realpath(os.fspath(p))
     except TypeError:
         return False
-    return p == SANDBOX or p.startswith(SANDBOX + os.sep)
+    sb = STATE["sandbox"]
+    return p == sb or p.startswith(sb + os.sep)
 
 
 def hook(event, args):
-    if not ARMED[0] or event not in INTEREST:
+    if not STATE["armed"] or event not in INTEREST:
         return
-    if event == "tempfile.mkdtemp":
-        paths = [args[0]]
-    elif event == "open":
+    if event == "open":
         if not isinstance(args[0], (str, bytes, os.PathLike)):
             return
         paths = [args[0]]
@@ -45,21 +58,22 @@ def hook(event, args):
         paths = [args[0], args[1]]
     else:
         paths = [args[0]]
-    if not paths or not any(_inside(p) for p in paths):
+    if not any(_inside(p) for p in paths):
         return
-    if event == "os.mkdir" or event == "os.rmdir":
-        # mkdtemp's own mkdir / rmtree's own rmdir: part of the enclosing operation
-        return
-    idx = len(EVENTS)
-    rec = {"event": event, "paths": [os.path.realpath(os.fspath(p)) for p in paths]}
+    events = STATE["events"]
+    idx = len(events)
+    rec = {"event": event, "paths": [os.path.relpath(os.path.realpath(os.fspath(p)), STATE["sandbox"]) for p in paths]}
     if event == "open":
         rec["mode"] = str(args[1])
-    EVENTS.append(rec)
-    if idx == K:
-        if MODE == "kill":
+    events.append(rec)
+    if idx == STATE["k"]:
+        if STATE["mode"] == "kill":
             os._exit(77)
-        if MODE == "fault":
-            raise OSError(5, "injected fault", rec["paths"][0])
+        if STATE["mode"] == "fault":
+            cls = EXC[STATE["exc"]]
+            if cls is OSError:
+                raise OSError(5, "injected fault", rec["paths"][0])
+            raise cls("injected fault")
 
 
 sys.addaudithook(hook)
@@ -74,9 +88,9 @@ class Boom:
     __repr__ = __str__
 
 
-def run_scenario():
+def run_scenario(sandbox):
     w = SC["writer"]
-    dest = os.path.join(SANDBOX, SC["dest"])
+    dest = os.path.join(sandbox, SC["dest"])
     fail = SC.get("fail", False)
     if w == "aln":
         data = {"s1": "ACGT--GT", "s2": "ACGTAAGT", "s3": "AC--AAGT"}
@@ -100,13 +114,15 @@ def run_scenario():
     elif w == "table":
         rows = [[1, "a,b", 2.5], [2, 'q"x', 3.5]]
         t = make_table(header=["i", "s", "f"], data=rows)
-        if fail:
-            import numpy
-
+        if fail == "badmode":
+            t.write(dest, mode="z")  # invalid file mode: open() raises ValueError
+        elif fail:
             col = numpy.empty(2, dtype=object)
             col[0], col[1] = Boom(), Boom()
             t = make_table(data={"i": [1, 2], "o": col})
-        t.write(dest)
+            t.write(dest)
+        else:
+            t.write(dest)
     elif w == "dictarray":
         darr = DictArrayTemplate(["a", "b"], ["x", "y"]).wrap([[1, 2], [3, 4]])
         if fail:
@@ -114,8 +130,6 @@ def run_scenario():
         else:
             darr.write(dest)
     elif w == "treecoll":
-        from cogent3.phylo.tree_collection import ScoredTreeCollection
-
         t = make_tree("((a:1,b:2):3,(c:4,d:5):6);")
         coll = ScoredTreeCollection([(1.0, t), (0.5, t)])
         if fail:
@@ -123,9 +137,18 @@ def run_scenario():
         coll.write(dest)
     elif w == "atomic":
         kw = {}
+        path = dest
         if SC.get("in_zip"):
-            kw["in_zip"] = os.path.join(SANDBOX, SC["in_zip"])
-        with atomic_write(dest, mode="wt", **kw) as f:
+            # explicit archive: the member path is relative, the archive is the destination
+            kw["in_zip"] = os.path.join(sandbox, SC["in_zip"])
+            path = SC["dest"]
+        if fail == "badmode":
+            kw["mode"] = "z"
+        else:
+            kw["mode"] = "wt"
+        with atomic_write(path, **kw) as f:
+            if fail == "early":
+                raise RuntimeError("formatting failed")  # before the first byte
             f.write("NEW-part1\n")
             if fail:
                 raise RuntimeError("formatting failed")
@@ -134,11 +157,115 @@ def run_scenario():
         raise ValueError(w)
 
 
-ARMED[0] = True
-try:
-    run_scenario()
-    outcome = "ok"
-except BaseException as e:  # noqa: BLE001
-    outcome = f"raised:{type(e).__name__}"
-ARMED[0] = False
-print(json.dumps({"events": EVENTS, "outcome": outcome}))
+def dest_file(sandbox):
+    return os.path.join(sandbox, SC.get("in_zip") or SC["dest"])
+
+
+def setup(sandbox):
+    if not SC["old"]:
+        return
+    p = dest_file(sandbox)
+    if p.endswith(".zip"):
+        with zipfile.ZipFile(p, "w") as z:
+            z.writestr("other.txt" if SC.get("in_zip") else "prev.txt", OLD)
+    else:
+        with open(p, "wb") as f:
+            f.write(OLD)
+    if SC.get("ro"):
+        os.chmod(p, 0o444)
+
+
+def one(mode, k, exc):
+    sandbox = os.path.realpath(tempfile.mkdtemp(prefix="c19_"))
+    resfile = sandbox + ".result"
+    try:
+        setup(sandbox)
+        pid = os.fork()
+        if pid == 0:
+            # ---- the execution proper
+            try:
+                STATE.update(sandbox=sandbox, mode=mode, k=k, exc=exc, events=[], armed=True)
+                try:
+                    run_scenario(sandbox)
+                    outcome = "ok"
+                except BaseException as e:  # noqa: BLE001
+                    outcome = f"raised:{type(e).__name__}"
+                STATE["armed"] = False
+                with open(resfile, "w") as f:
+                    json.dump({"events": STATE["events"], "outcome": outcome}, f)
+                os._exit(0)
+            finally:
+                os._exit(70)
+        t0 = time.time()
+        rc = None
+        while time.time() - t0 < 120:
+            done, status = os.waitpid(pid, os.WNOHANG)
+            if done:
+                rc = os.waitstatus_to_exitcode(status)
+                break
+            time.sleep(0.002)
+        if rc is None:
+            os.kill(pid, 9)
+            os.waitpid(pid, 0)
+            rc = 124
+        events = outcome = None
+        if rc == 0:
+            with open(resfile) as f:
+                d = json.load(f)
+            events, outcome = d["events"], d["outcome"]
+        df = dest_file(sandbox)
+        content = None
+        if os.path.exists(df):
+            with open(df, "rb") as f:
+                content = f.read().decode("latin1")
+        left = []
+        top = os.path.basename(df)
+        for root, dirs, files in os.walk(sandbox):
+            for n in dirs + files:
+                rel = os.path.relpath(os.path.join(root, n), sandbox)
+                if rel != top:
+                    left.append(rel)
+        return {"mode": mode, "k": k, "exc": exc, "rc": rc, "events": events, "outcome": outcome,
+                "dest": content, "leftovers": sorted(left)}
+    finally:
+        for root, dirs, files in os.walk(sandbox):
+            for n in dirs + files:
+                try:
+                    os.chmod(os.path.join(root, n), 0o700)
+                except OSError:
+                    pass
+        shutil.rmtree(sandbox, ignore_errors=True)
+        if os.path.exists(resfile):
+            os.remove(resfile)
+
+
+def emit(r):
+    sys.stdout.write(json.dumps(r) + "\n")
+    sys.stdout.flush()
+
+
+if cfg.get("jobs") is not None:
+    for mode, k, exc in cfg["jobs"]:
+        emit(one(mode, k, exc))
+    sys.exit(0)
+
+trace = one("trace", -1, None)
+emit(trace)
+if trace["rc"] == 0:
+    n = len(trace["events"])
+    classes = cfg.get("classes", ["OSError"])
+    kills = list(range(n + 1))
+    if cfg.get("kills") == "sample" and n > 4:
+        # every second boundary, always the first two and the last three (commit region)
+        kills = sorted({0, 1, n - 2, n - 1, n} | set(range(0, n + 1, 2)))
+    for k in kills:
+        emit(one("kill", k, None))
+    if cfg.get("faults", "all") != "none":
+        for k in range(n):
+            if cfg.get("faults") == "sample":
+                # OSError at every event, the other classes rotate over the events
+                cl = ["OSError"] + ([classes[1 + (k % (len(classes) - 1))]] if len(classes) > 1 else [])
+            else:
+                cl = classes
+            for exc in cl:
+                emit(one("fault", k, exc))
